@@ -64,6 +64,12 @@ class Tx(ast.NodeTransformer):
         n.iter = ast.copy_location(ast.Call(ast.Name("__sx_iter__", ast.Load()), [n.iter], []), n.iter)
         return n
 
+    def visit_FunctionDef(self, n):
+        self.generic_visit(n)
+        if n.name in ("__str__", "__repr__"):
+            n.decorator_list = [ast.copy_location(ast.Name("__sx_strfn__", ast.Load()), n)] + n.decorator_list
+        return n
+
     def visit_ExceptHandler(self, n):
         self.generic_visit(n)
         bare = n.type is None or (isinstance(n.type, ast.Name) and n.type.id == "BaseException")
@@ -78,7 +84,16 @@ def sx_iter(x):
     return x
 
 
-HOOKS = dict(__sx_call__=hooks.sx_call, __sx_in__=hooks.sx_in, __sx_getitem__=hooks.sx_getitem,
+def sx_strfn(fn):
+    """__str__/__repr__ of code under test may compute a symbolic string; C-level str() needs a real one"""
+    def wrapper(self):
+        r = fn(self)
+        return r if type(r) is str else "<sym>"
+    wrapper.__name__ = fn.__name__
+    return wrapper
+
+
+HOOKS = dict(__sx_strfn__=sx_strfn, __sx_call__=hooks.sx_call, __sx_in__=hooks.sx_in, __sx_getitem__=hooks.sx_getitem,
              __sx_setitem__=hooks.sx_setitem, __sx_delitem__=hooks.sx_delitem, __sx_mod__=hooks.sx_mod,
              __sx_iter__=sx_iter, __sx_reraise__=hooks.sx_reraise)
 
